@@ -1,6 +1,6 @@
 """C06 — comments preserved: text of every comment survives (kernel level)."""
 from mirsym import models_typst as T
-from . import comments, lists, flows, chains
+from . import comments, lists, flows, chains, mathargs
 
 EXPLANATION = (
     "Bounded symbolic execution (MIR->SMT, z3) of pretty/comment.rs: for every block comment '/*' + up to M code points + '*/' the "
@@ -25,6 +25,8 @@ def run(S):
     f2 = flows.explore_flow(S, KF, want=('C06',))
     f2 += lists.explore(S, KL, want=('C06',))
     lists.report(S, 'C06', f2)
+    f4 = mathargs.explore(S, 3 if S.tier == 'quick' else 4, want=('C06',))
+    mathargs.report(S, 'C06', f4)
     f3 = chains.explore(S, want=('C06',))
     chains.report(S, 'C06', f3)
     S.assumptions += lists.ASSUMPTIONS
